@@ -49,7 +49,7 @@ class MField:
         self.off = int(d["off"])
         self.width = int(d["width"])
         self.shift = int(d.get("shift", 0))
-        self.enums = [(str(n), int(v)) for n, v in d.get("enums", [])]
+        self.enums = [(str(e[0]), int(e[1])) for e in d.get("enums", [])]
         self.hidden = bool(d.get("hidden", False)) or self.name is None
 
     @property
